@@ -791,6 +791,7 @@ pub fn run(report: &Report, tier: &Tier) {
     }
     report.floor("P6-late-interface", 1);
     report.floor("P1-after-yield", 20);
+    report.floor("P3-window", 20);
     let seed = report.seed;
     let n: u64 = if tier.thorough { 400_000 } else { 3_000 };
     run_parallel(report, n, threads(), tier.budget_s * 0.8, |i, l| {
@@ -805,5 +806,10 @@ pub fn run(report: &Report, tier: &Tier) {
     let n3: u64 = if tier.thorough { 100_000 } else { 600 };
     run_parallel(report, n3, threads(), tier.budget_s * 0.1, |i, l| {
         tiebreak_case(util::mix(seed, 0xC07_9000 + i), l);
+    });
+    // a plain question about a name that has finished probing while the service's other name still waits
+    let n4: u64 = if tier.thorough { 60_000 } else { 600 };
+    run_parallel(report, n4, threads(), tier.budget_s * 0.05, |i, l| {
+        crate::props::c08::window_question_case(util::mix(seed, 0xC07_A000 + i), true, l);
     });
 }
